@@ -334,7 +334,9 @@ class C23(Check):
 
     # ---- model
     def model_term(self, case):
-        o = case["_o"]
+        o = case.get("_o")
+        if o is None or isinstance(o, Err):
+            return None
         if case["kind"] == "fmmu":
             return f"(run_fmmu {clist([clist([cz(d) for d in case['draws'][q] + [500]]) for q in o['order']])})"
         sched = [f"({cnat(p)}, {cz(drawn)})" for p, what, drawn in o["steps"] if what != "idle"]
